@@ -106,6 +106,22 @@ def apply_contract(interp, c, func, args, kwargs):
         env = dict(env, old=old)      # `when` conditions of exceptional outcomes may mention the pre-state
     if c.event is not None:
         st.emit(c.event, dict(bound))
+    # frame: the symbolic mutable state (maps) reachable from the parameters named in `modifies` is forgotten;
+    # the clauses relate it to `old`.  (Applies to exceptional outcomes too.)
+    if isinstance(c.modifies, (tuple, list)) and c.modifies:
+        from . import models
+        n = st.counters.get('@call', 0)
+        st.counters['@call'] = n + 1
+        for pname in c.modifies:
+            base, _, attrs = pname.partition('.')
+            if base not in bound:
+                raise Unsupported('contract %s: modifies names unknown parameter %r' % (c.qname, pname))
+            target = bound[base]
+            for a in (attrs.split('.') if attrs else ()):      # 'param.attr.attr': only that part of the object
+                target = interp.resolve(target) if isinstance(target, (SOpt, SChoice)) else target
+                target = object.__getattribute__(target, '__dict__')[a]
+            if not models.havoc_mutable(interp, target, 'call%d.%s' % (n, c.qname.rpartition(':')[2])):
+                raise Unsupported('contract %s: nothing to havoc in parameter %r' % (c.qname, pname))
     # frame: ghost state the callee may change (entries 'ghost:<key>' of `modifies`) is havoced;
     # what is known about it afterwards is what the (exceptional) postconditions say
     short = c.qname.rpartition(':')[2]
@@ -442,6 +458,19 @@ def _run_path(interp, reg, c, func, rep):
     for exc_cls, spec in c.raises.items():
         if spec.get('when') is not None:
             when_values[exc_cls] = interp.truth(_call_pred(interp, spec['when'], env))
+    # frame: symbolic maps reachable from parameters that the contract does not list in `modifies`
+    # must be unchanged on every outcome
+    from . import models as _models
+    frame_snap = []
+    mods = tuple(c.modifies or ())
+    for pname, pval in args.items():
+        if pname in mods:
+            continue
+        for path_, m_ in _models.reachable_smaps(pval):
+            full = (pname + path_).replace('?', '')
+            if any(full == m or full.startswith(m + '.') for m in mods):
+                continue
+            frame_snap.append((pname + path_, m_, m_.has, m_.val))
     # positional order of the real function
     code = func.__code__
     names = list(code.co_varnames[:code.co_argcount + code.co_kwonlyargcount])
@@ -483,6 +512,9 @@ def _run_path(interp, reg, c, func, rep):
         now = mlists_after.get(path)
         if (now is None or now[0] is not m or now[1] != version) and path not in c.modifies:
             st.oblige('%s : frame[%s is not modified]' % (fname, path), False, {'kind': 'frame'})
+    for (where, m_, has0, val0) in frame_snap:
+        same = True if (m_.has is has0 and m_.val is val0) else wrap(z3.And(m_.has == has0, m_.val == val0))
+        st.oblige('%s : frame[%s unchanged]' % (fname, where), same, {'kind': 'frame'})
     if outcome[0] == 'return':
         env2 = _clause_env(args, ghosts, {'result': outcome[1], 'old': old, 'trace': st.trace, 'ghost': st.ghost})
         # a declared deterministic `when` exception must have been raised
